@@ -49,7 +49,7 @@ Proof. exact (pos_tables_sound schema pos_spec pos_impl pos_tables_checked). Qed
 Print Assumptions C05_positions_are_the_documented_ones.
 
 (* ---- the type grammar (ParseType), whole: Parse/TypeModel.v, Parse/TypeProofs.v, Parse/TypeSpan.v ---- *)
-From Verif Require Import Parse.TypeModel Parse.TypeProofs Parse.TypeSpan.
+From Verif Require Import Parse.TypeModel Parse.TypeProofs Parse.TypeSpan Parse.TypePos.
 
 (* whatever the model of ParseType accepts from a token list laid out like lexer output (tokens in source order without overlap,
    non-empty, ">>" and "<>" two bytes wide, a builtin type name at least as wide as its letters) starts at its first token, ends no
